@@ -183,6 +183,123 @@ def state_diff(x, y):
     return out
 
 
+# ---------------------------------------------------------------------------
+# Random block streams. The fixed stream above concretises the model's StreamDef; the streams below are whatever the
+# state-aware drivers produce (recorded once through the ABCI driver), replayed on three real replicas:
+#   A  plain;
+#   Bs the same blocks plus NON-CONSENSUS executions in between (Simulate / CheckTx of transactions that fail half-way,
+#      aimed at whoever acts next, and of the next block's own transactions)          -> C01
+#   Br the same blocks with process restarts (always right after a block in which a staking transaction failed) -> C03
+STREAM_PLAN = {
+    "quick": [("super", 3, 70), ("poor", 1, 40)],
+    "thorough": [("super", 14, 110), ("pay", 3, 80), ("life", 3, 80), ("poor", 3, 80), ("sidauth", 3, 80), ("fault", 2, 80), ("did", 2, 80)],
+}
+STAKING_KINDS = ("Delegate", "Undelegate", "Redelegate", "Reset", "AddVstorage", "RemoveVstorage", "Create")
+
+
+def stream_from_trace(path, max_skip=30):
+    """Blocks of a recorded driver trace: the transactions between two Blocks events form one block."""
+    blocks, cur, failed = [], [], []
+    bad = False
+    for line in open(path):
+        r = json.loads(line)
+        if r.get("kind") != "event":
+            continue
+        ev = r["ev"]
+        if ev["kind"] == "Blocks":
+            blocks.append({"txs": cur, "skip": max(0, min(int(ev["n"]) - 1, max_skip)), "failed_staking": bad})
+            cur, bad = [], False
+        else:
+            cur.append(ev)
+            if ev["kind"] in ("Delegate", "Undelegate", "Redelegate") and r["out"]["result"] != "ok":
+                bad = True
+    if cur:
+        blocks.append({"txs": cur, "skip": 0, "failed_staking": bad})
+    return blocks
+
+
+def stream_scripts(blocks, rnd):
+    """(plain, with non-consensus noise, with restarts) scripts for one stream."""
+    plain, noisy, restarts = [], [], []
+    # the drivers put many transactions between two block events: cut the blocks smaller (same cut for all replicas)
+    cut = []
+    for b in blocks:
+        cur = []
+        for tx in b["txs"]:
+            cur.append(tx)
+            if rnd.random() < 0.4:
+                cut.append({"txs": cur, "skip": 0, "failed_staking": False})
+                cur = []
+        cut.append({"txs": cur, "skip": b["skip"], "failed_staking": b["failed_staking"]})
+    for b in cut:
+        # noise aimed at whoever acts in this block: a delegation far above his balance fails between the two staking hooks
+        for tx in b["txs"]:
+            if tx["kind"] in STAKING_KINDS and rnd.random() < 0.6:
+                poison = {"kind": "Delegate", "creator": tx["creator"], "val": rnd.choice(["v1", "v2"]), "amount": 200000000}
+                noisy.append({"op": rnd.choice(["simulate", "checktx"]), "tx": poison})
+            elif rnd.random() < 0.1:
+                noisy.append({"op": rnd.choice(["simulate", "checktx"]), "tx": tx})
+        if rnd.random() < 0.25:
+            restarts.append({"op": "restart"})
+        for sc in (plain, noisy, restarts):
+            sc.append({"op": "block", "txs": b["txs"]})
+        if b["failed_staking"]:
+            restarts.append({"op": "restart"})
+        if b["skip"]:
+            for sc in (plain, noisy, restarts):
+                sc.append({"op": "blocks", "n": b["skip"]})
+    for sc in (plain, noisy, restarts):
+        sc.append({"op": "blocks", "n": 2})
+    return plain, noisy, restarts
+
+
+def random_streams(binary, workdir, tier, seed):
+    import random
+    rnd = random.Random(seed * 7919 + 13)
+    global CFG
+    saved = CFG
+    violations, runs = [], []
+    tdir = os.path.join(workdir, "streams")
+    shutil.rmtree(tdir, ignore_errors=True)
+    os.makedirs(tdir)
+    try:
+        CFG = {}   # the drivers' default world
+        k = 0
+        for (profile, n, nev) in STREAM_PLAN[tier]:
+            rc, o, _ = run([binary, "drive", "--abci", "--profile", profile, "--seed", str(seed * 100 + 50), "--traces", str(n), "--n", str(nev), "--out", tdir], timeout=1200)
+            if rc not in (0, 3):
+                raise MachineryError("stream driver failed rc=%d: %s" % (rc, o[-1000:]))
+            for f in sorted(os.listdir(tdir)):
+                if not f.startswith(profile + "-") or not f.endswith(".ndjson"):
+                    continue
+                blocks = stream_from_trace(os.path.join(tdir, f))
+                os.rename(os.path.join(tdir, f), os.path.join(tdir, "used-" + f))
+                if not blocks:
+                    continue
+                plain, noisy, restarts = stream_scripts(blocks, rnd)
+                name = "S%02d" % k
+                k += 1
+                ra = run_replica(binary, workdir, name + "a", plain, "plain")
+                ba = blocks_of(ra)
+                entry = {"stream": f, "blocks": len(ba), "txs": sum(len(b["txs"]) for b in blocks),
+                         "noise_calls": sum(1 for s in noisy if s["op"] in ("simulate", "checktx")),
+                         "restarts": sum(1 for s in restarts if s["op"] == "restart")}
+                if any(r["op"] == "halt" for r in ra):
+                    violations.append({"formula": "C02_NoHaltABCI", "detail": "replica halted on stream %s: %s" % (f, [r.get("note") for r in ra if r["op"] == "halt"]), "script": name + "a"})
+                for tag, script, formula in (("n", noisy, "C01_Agreement"), ("r", restarts, "C03_RestartAgreement")):
+                    rb = run_replica(binary, workdir, name + tag, script, "full")
+                    d = compare_blocks(ba, blocks_of(rb))
+                    entry["agree_" + tag] = d is None
+                    if d is not None:
+                        violations.append({"formula": formula, "detail": json.dumps({"stream": f, "diff": d})[:600], "script": name + tag})
+                    shutil.rmtree(os.path.join(workdir, name + tag, "db"), ignore_errors=True)
+                shutil.rmtree(os.path.join(workdir, name + "a", "db"), ignore_errors=True)
+                runs.append(entry)
+    finally:
+        CFG = saved
+    return {"streams": runs, "violations": violations}
+
+
 def replicas_run(binary, workdir, tier, seed):
     os.makedirs(workdir, exist_ok=True)
     t0 = time.time()
@@ -269,5 +386,7 @@ def replicas_run(binary, workdir, tier, seed):
         for n2 in (name, name + "i"):
             shutil.rmtree(os.path.join(workdir, n2, "db"), ignore_errors=True)
     shutil.rmtree(os.path.join(workdir, "A", "db"), ignore_errors=True)
-    return {"model": mc, "schedules": runs, "c18": c18, "violations": violations, "wall_s": round(time.time() - t0, 1),
-            "blocks_compared": sum(len(blkA) for _ in runs)}
+    rs = random_streams(binary, workdir, tier, seed)
+    violations += rs["violations"]
+    return {"model": mc, "schedules": runs, "c18": c18, "streams": rs["streams"], "violations": violations, "wall_s": round(time.time() - t0, 1),
+            "blocks_compared": sum(len(blkA) for _ in runs) + 2 * sum(e["blocks"] for e in rs["streams"])}
